@@ -2427,10 +2427,10 @@ namespace igris
             if (this == &other)
                 return *this;
             clear();
-            m_size = other.m_size;
-            for (igris::size_t pos = 0; pos < m_size; ++pos)
+            for (igris::size_t pos = 0; pos < other.m_size; ++pos)
             {
                 new (&_data[pos]) T(other[pos]);
+                ++m_size;
             }
             return *this;
         }
@@ -2440,10 +2440,10 @@ namespace igris
             if (this == &other)
                 return *this;
             clear();
-            m_size = other.m_size;
-            for (igris::size_t pos = 0; pos < m_size; ++pos)
+            for (igris::size_t pos = 0; pos < other.m_size; ++pos)
             {
                 new (&_data[pos]) T(igris::move(other[pos]));
+                ++m_size;
             }
             other.clear();
             return *this;
